@@ -65,7 +65,7 @@ theorem walked_eq (f : Fields) (a : Area) (hpa : parseArea f.tcp.opts = some a)
     (walked f).olayout = a.layout ∧
     (walked f).mss = (mssValues a).getLast? ∧
     (walked f).wscale = (wsValues a).getLast? ∧
-    (walked f).quirks = hdrQuirks f ++ a.items.flatMap (itemQuirks (tcpType f.tcp.flags)) := by
+    (walked f).quirks = addNew (hdrQuirks f) (a.items.flatMap (itemQuirks (tcpType f.tcp.flags))) := by
   have hwf : ∀ i ∈ a.items, i.WF := by
     unfold parseArea at hpa
     simp only [Option.map_eq_some_iff] at hpa
@@ -78,7 +78,22 @@ theorem walked_eq (f : Fields) (a : Area) (hpa : parseArea f.tcp.opts = some a)
   have ok1 : ∀ o : Option Nat, orKeep o none = o := by
     intro o; cases o <;> rfl
   rcases hpad with h | h <;> rw [h] <;>
-    simp [Area.layout, h, mssValues, wsValues, ok1, walk, walkAux, walkStep]
+    simp [Area.layout, h, mssValues, wsValues, ok1, walk, walkAux, walkStep, stepQuirks, addNew]
+
+/-- when window scale and timestamps occur at most once, the guards of the option-quirk pushes never
+fire: the option quirks are fresh (header quirks are other quirks) and distinct -/
+theorem walked_quirks_unamb (f : Fields) (a : Area) (hpa : parseArea f.tcp.opts = some a)
+    (hpad : a.pad = none ∨ a.pad = some [])
+    (h2 : ¬ 1 < (wsValues a).length) (h3 : ¬ 1 < (tsValues a).length) :
+    (walked f).quirks = hdrQuirks f ++ a.items.flatMap (itemQuirks (tcpType f.tcp.flags)) := by
+  rw [(walked_eq f a hpa hpad).2.2.2]
+  apply addNew_eq_append
+  · exact optQ_nodup _ _ (by unfold wsValues at h2; omega) (by unfold tsValues at h3; omega)
+  · intro q hq
+    have : q ∈ optionQuirks := by
+      rw [optQ_mem] at hq
+      rcases hq with ⟨rfl, _⟩ | ⟨rfl, _⟩ | ⟨rfl, _⟩ <;> simp [optionQuirks]
+    exact hdr_not_opt f q (Or.inl this)
 
 /-- on an option area the grammar accepts nothing is pushed after the loop -/
 theorem badQ_parsed (f : Fields) (a : Area) (hpa : parseArea f.tcp.opts = some a) : badQ f = [] := by
@@ -91,12 +106,13 @@ theorem badQ_malformed (f : Fields) (hpa : parseArea f.tcp.opts = none) : badQ f
   unfold badQ
   simp [(optionsMalformed_iff f.tcp.opts).mpr hpa]
 
-/-- the quirk list of the signature: header quirks, what the walk appends, `bad` -/
+/-- the quirk list of the signature: header quirks, what the walk appends (option-derived quirks,
+none of them twice), `bad` -/
 theorem modelSig_quirks (f : Fields) :
-    (modelSig f).quirks =
-      hdrQuirks f ++ (walk (tcpType f.tcp.flags) f.tcp.opts {}).quirks ++ badQ f := by
-  simp only [modelSig, walked]
-  rw [(walk_quirks _ _ _).1]
+    ∃ ext, (modelSig f).quirks = hdrQuirks f ++ ext ++ badQ f ∧ (∀ q ∈ ext, q ∈ optionQuirks) ∧
+      (hdrQuirks f ++ ext).Nodup := by
+  obtain ⟨ext, h1, h2, h3⟩ := walk_quirks (tcpType f.tcp.flags) f.tcp.opts { quirks := hdrQuirks f }
+  exact ⟨ext, by simp only [modelSig, walked]; rw [h1], h2, h3 (hdr_nodup f)⟩
 
 end Huginn.Lemmas.TcpMain
 
